@@ -254,6 +254,44 @@ def claim_proof(ctx, prog):
         for msg, (g, ign) in closing.items():
             if msg in norm_text(x):
                 R.exact_gate(ctx, "C08-D4/VALID", vp, x, g, f"`{msg}` is raised exactly under its condition", ignore=ign, key=f"C08-D4/VALID|{q}|exact|{msg[:30]}")
+    # what is hashed per trie level: the updates of `to_hash`, in order, each with its (temporaries resolved) value under its condition
+    upd = [x for x in R.ordered_stmts(vp) if isinstance(x, (ast.Assign, ast.AugAssign)) and
+           any(dotted(t) == "to_hash" for t in (x.targets if isinstance(x, ast.Assign) else [x.target]))]
+    got = [("=" if isinstance(x, ast.Assign) else "+=", vp.expanded_text(x.value, keep=("previous_computed_hash", "to_hash"))) for x in upd]
+    want = [("=", "b''", ""),
+            ("+=", "bytes((child['character'],))", ""),
+            ("+=", "binascii.unhexlify(child['nodeHash'])[::-1]", "'nodeHash' in child"),
+            ("+=", "previous_computed_hash", "'nodeHash' not in child"),
+            ("+=", "get_hash_for_outpoint(binascii.unhexlify(proof['txhash'])[::-1], proof['nOut'], proof['last takeover height'])", OUT),
+            ("+=", "binascii.unhexlify(node['valueHash'])[::-1]", "'valueHash' in node")]
+    ok = got == [(a, b) for a, b, _g in want]
+    ctx.ob("C08-D4/DEP", ok, vp.site(), "each level hashes: child character, then the child's nodeHash (reversed) or the hash computed so far; the leaf adds the outpoint hash "
+           "or the node's valueHash (reversed) — in this order", detail="" if ok else f"updates of to_hash: {got}", func=q, key=f"C08-D4/DEP|{q}|to_hash")
+    if ok:
+        for x, (_a, b, g) in zip(upd, want):
+            if g:
+                R.gate(ctx, "C08-D4/DEP", vp, x, g, f"`to_hash += {b[:40]}` happens under `{g[:50]}`", key=f"C08-D4/DEP|{q}|to_hash|{b[:24]}")
+            R.only_terms(ctx, "C08-D4/DEP", vp, x, [t for _m, t in table], f"`to_hash … {b[:40]}` depends on the checker's own tests only", key=f"C08-D4/DEP|{q}|to_hash|terms|{b[:24]}")
+    names = [x for x in R.ordered_stmts(vp) if isinstance(x, ast.AugAssign) and dotted(x.target) == "reverse_computed_name"]
+    ok = len(names) == 1 and vp.expanded_text(names[0].value) == "chr(child['character'])" and isinstance(names[0].op, ast.Add) and vp.guarded(names[0], "'nodeHash' not in child")[0]
+    ctx.ob("C08-D4/DEP", ok, vp.site(names[0]) if names else vp.site(), "the name is collected from the characters of the children on the chain (those without a nodeHash)", func=q, key=f"C08-D4/DEP|{q}|name")
+    tg = [x for x in vp.stmts(ast.Assign) if any(dotted(t) == "target" for t in x.targets)]
+    ok = len(tg) == 1 and unparse(tg[0].value) == "reverse_computed_name[::-1].encode('ISO-8859-1').decode()"
+    ctx.ob("C08-D4/DEP", ok, vp.site(tg[0]) if tg else vp.site(), "the proven name is the collected characters reversed (leaf first → root first), ISO-8859-1 bytes decoded as UTF-8", func=q, key=f"C08-D4/DEP|{q}|target")
+    pc = [x for x in vp.stmts(ast.Assign) if any(dotted(t) == "previous_child_character" for t in x.targets) and not is_const(x.value, None)]
+    ok = len(pc) == 1 and vp.expanded_text(pc[0].value) == "child['character']"
+    ctx.ob("C08-D4/DEP", ok, vp.site(pc[0]) if pc else vp.site(), "the order test compares with the previous child's character", func=q, key=f"C08-D4/DEP|{q}|prevchar")
+    fc = [x for x in vp.stmts(ast.Assign) if any(dotted(t) == "found_child_in_chain" for t in x.targets)]
+    ok = sorted(unparse(x.value) for x in fc) == ["False", "True"] and all(vp.guarded(x, "'nodeHash' not in child")[0] for x in fc if is_const(x.value, True))
+    ctx.ob("C08-D4/DEP", ok, vp.site(), "found_child_in_chain starts False per level and is set by the one child without a nodeHash", func=q, key=f"C08-D4/DEP|{q}|found")
+    loops = [x for x in vp.stmts(ast.For) if unparse(x.iter).startswith("enumerate(")]
+    ok = len(loops) == 1 and unparse(loops[0].iter) == "enumerate(proof['nodes'][::-1])"
+    ctx.ob("C08-D4/DEP", ok, vp.site(loops[0]) if loops else vp.site(), "the nodes are walked leaf first (the proof lists them root first), numbered from 0", func=q, key=f"C08-D4/DEP|{q}|walk")
+    init = {"previous_computed_hash": "None", "reverse_computed_name": "''", "verified_value": "False", "previous_child_character": "None"}
+    for nm, val in init.items():
+        firsts = [x for x in R.ordered_stmts(vp) if isinstance(x, (ast.Assign, ast.AugAssign)) and any(dotted(t) == nm for t in (x.targets if isinstance(x, ast.Assign) else [x.target]))]
+        ok = bool(firsts) and isinstance(firsts[0], ast.Assign) and unparse(firsts[0].value) == val
+        ctx.ob("C08-D4/DEP", ok, vp.site(firsts[0]) if firsts else vp.site(), f"`{nm}` starts as {val}", func=q, key=f"C08-D4/DEP|{q}|init|{nm}")
     sets = [s for s in vp.stmts(ast.Assign) if any(dotted(t) == "verified_value" for t in s.targets) and is_const(s.value, True)]
     ok = len(sets) == 1 and vp.guarded(sets[0], OUT)[0]
     ctx.ob("C08-D4/VALID", ok, vp.site(sets[0]) if sets else vp.site(), "the outpoint counts as verified only where it was hashed into the leaf (first node, all three fields present)", func=q,
